@@ -154,24 +154,9 @@ class Ctx:
         obligations (theorems of the property file) with Print Assumptions.
         `files` = list of .v paths relative to coq/ this property depends on;
         the last one is the property file."""
-        ok, log = coq_make()
+        ok, log, missing = build_files(files)
         propfile = COQ / files[-1]
-        missing = []
-        for f in files:   # a .vo must be newer than its .v and than the .vo of the PV files it imports
-            v, vo = COQ / f, (COQ / f).with_suffix('.vo')
-            if (not vo.exists()) or vo.stat().st_mtime < v.stat().st_mtime:
-                missing.append(f)
-                continue
-            req = ' '.join(re.findall(r'(?m)^\s*(?:From\s+PV\s+)?Require\s+(?:Import|Export)?\s*([^.]*(?:\.[A-Za-z_][^.]*)*)\.\s*$',
-                                      v.read_text()))
-            for g in files:
-                mod = Path(g).stem
-                if g != f and re.search(r'(?<![\w])' + re.escape(mod) + r'(?![\w])', req):
-                    gvo = (COQ / g).with_suffix('.vo')
-                    if g in missing or (gvo.exists() and vo.stat().st_mtime < gvo.stat().st_mtime - 1e-3):
-                        missing.append(f)
-                        break
-        bad_kw = forbidden_scan()
+        bad_kw = forbidden_scan(files)
         thms = re.findall(r'^\s*(?:Theorem|Lemma|Corollary)\s+(\w+)', propfile.read_text(), re.M)
         self.obligations += len(thms)
         self.cov['theorems'] = thms
@@ -182,8 +167,8 @@ class Ctx:
         done = [t for t in thms if t in axioms]
         self.discharged += len(done)
         self.cov['checker_cmd'] = (
-            f'cd /verif/coq && coq_makefile -f _CoqProject -o Makefile && make -j{NCPU} '
-            f'&& coqc -Q . PV {files[-1]}  (Print Assumptions per theorem)')
+            'cd /verif/coq && ' + ' && '.join(f'coqc -Q . PV {g}' for g in files) + '  (full .vo compilation in dependency order; '
+            'the last file prints Print Assumptions per theorem; bin/setup = coq_makefile + make of everything)')
         used = sorted({a for v in axioms.values() for a in v})
         self.cov['axioms'] = {k: v for k, v in axioms.items()}
         self.trusted.append('axioms reported by Print Assumptions: ' +
@@ -342,9 +327,53 @@ def coq_make(timeout=3000):
     return p.returncode == 0, p.stdout[-6000:] + p.stderr[-6000:]
 
 
-def forbidden_scan():
+_REQ = re.compile(r'(?m)^\s*(?:From\s+PV\s+)?Require\s+(?:Import|Export)?\s*([^.]*(?:\.[A-Za-z_][^.]*)*)\.\s*$')
+
+
+def _stale(f, files, rebuilt):
+    """A .vo is stale if missing, older than its .v, or older than the .vo of a listed file it Requires."""
+    v, vo = COQ / f, (COQ / f).with_suffix('.vo')
+    if (not vo.exists()) or vo.stat().st_mtime < v.stat().st_mtime:
+        return True
+    req = ' '.join(_REQ.findall(v.read_text()))
+    for g in files:
+        mod = Path(g).stem
+        if g != f and re.search(r'(?<![\w])' + re.escape(mod) + r'(?![\w])', req):
+            gvo = (COQ / g).with_suffix('.vo')
+            if g in rebuilt or (not gvo.exists()) or vo.stat().st_mtime < gvo.stat().st_mtime - 1e-3:
+                return True
+    return False
+
+
+def build_files(files, timeout=2400):
+    """Full .vo compilation (coqc, never -vos) of exactly the files this property depends on, in the listed
+    (dependency) order, re-compiling only stale ones.  One lock per file, so that concurrent checks of
+    different properties never wait for each other's proofs.  Returns (ok, log, files_without_fresh_vo)."""
+    log, rebuilt, failed = [], [], []
+    for f in files:
+        lock = COQ / ('.lock_' + f.replace('/', '_'))
+        if any(g in failed for g in files if g != f and re.search(r'(?<![\w])' + re.escape(Path(g).stem) + r'(?![\w])',
+                                                               ' '.join(_REQ.findall((COQ / f).read_text())))):
+            failed.append(f)
+            continue
+        if not _stale(f, files, rebuilt):
+            continue
+        p = subprocess.run(['flock', str(lock), 'timeout', str(timeout), 'coqc', '-Q', '.', 'PV',
+                            '-w', '-notation-overridden,-deprecated-hint-without-locality,'
+                            '-deprecated-instance-without-locality,-deprecated-syntactic-definition', f],
+                           cwd=COQ, capture_output=True, text=True)
+        log.append(f'--- coqc {f}: rc={p.returncode}\n' + (p.stdout + p.stderr)[-3000:])
+        if p.returncode == 0:
+            rebuilt.append(f)
+        else:
+            failed.append(f)
+    missing = [f for f in files if f in failed or _stale(f, files, [])]
+    return (not missing), '\n'.join(log)[-6000:], missing
+
+
+def forbidden_scan(files=None):
     hits = []
-    for f in sorted(COQ.rglob('*.v')):
+    for f in (sorted(COQ.rglob('*.v')) if files is None else [COQ / g for g in files]):
         txt = f.read_text()
         # strip comments (non-nested approximation is enough: we never nest)
         txt2 = re.sub(r'\(\*.*?\*\)', lambda m: ' ' * 0 + '\n' * m.group(0).count('\n'), txt, flags=re.S)
